@@ -124,8 +124,11 @@ struct Row {
 }
 
 fn rows(sm: &SourceMap, scope: impl Fn(sourcemap::Token<'_>) -> Option<String>) -> Vec<Row> {
-    sm.tokens()
-        .map(|t| Row {
+    sm.tokens().map(|t| row_of(sm, t, &scope)).collect()
+}
+
+fn row_of(sm: &SourceMap, t: sourcemap::Token<'_>, scope: &impl Fn(sourcemap::Token<'_>) -> Option<String>) -> Row {
+    Row {
             dl: t.get_dst_line(),
             dc: t.get_dst_col(),
             src: if t.has_source() {
@@ -141,8 +144,7 @@ fn rows(sm: &SourceMap, scope: impl Fn(sourcemap::Token<'_>) -> Option<String>) 
             range: t.is_range(),
             content: if t.has_source() { sm.get_source_contents(t.get_src_id()).map(str::to_string) } else { None },
             scope: scope(t),
-        })
-        .collect()
+    }
 }
 
 fn check(c: &Case, obs: &mut Obs) -> Verdict {
@@ -163,7 +165,8 @@ fn check(c: &Case, obs: &mut Obs) -> Verdict {
     let prefixes = resolve_prefixes(&old_sources, &c.prefixes);
     let pf: Vec<&str> = prefixes.iter().map(|s| s.as_str()).collect();
     let opts = rewrite_opts(c.with_names, c.with_contents, &pf);
-    let (after_sm, after): (SourceMap, Vec<Row>) = match hermes {
+    let mut after_hermes: Option<sourcemap::SourceMapHermes> = None;
+    let (after_sm, after): (SourceMap, Vec<Row>) = match hermes.clone() {
         None => match guard(|| before_sm.clone().rewrite(&opts)) {
             Ok(Ok(m)) => {
                 let r = rows(&m, |_| None);
@@ -175,6 +178,7 @@ fn check(c: &Case, obs: &mut Obs) -> Verdict {
         Some(h) => match guard(|| h.rewrite(&opts)) {
             Ok(Ok(m)) => {
                 let r = rows(&m, |t| m.get_scope_for_token(t).map(str::to_string));
+                after_hermes = Some(m.clone());
                 ((*m).clone(), r)
             }
             Ok(Err(e)) => return Verdict::Fail(format!("hermes rewrite failed: {e}")),
@@ -207,13 +211,8 @@ fn check(c: &Case, obs: &mut Obs) -> Verdict {
     let mut used = vec![false; a_sorted.len()];
     let mut removed_by_tilde: BTreeSet<String> = BTreeSet::new();
     let mut stripped_something = false;
-    for b in &b_sorted {
-        let mut found = false;
-        for (i, a) in a_sorted.iter().enumerate() {
-            if used[i] || key(a) != key(b) {
-                continue;
-            }
-            let ok = match (&b.src, &a.src) {
+    let corresponds = |b: &Row, a: &Row| -> bool {
+        match (&b.src, &a.src) {
                 (None, None) => true,
                 (Some(bs), Some(as_)) => {
                     let name_ok = if c.with_names { as_.3 == bs.3 } else { as_.3.is_none() };
@@ -234,7 +233,15 @@ fn check(c: &Case, obs: &mut Obs) -> Verdict {
                     name_ok && src_ok && content_ok && a.scope == b.scope
                 }
                 _ => false,
-            };
+        }
+    };
+    for b in &b_sorted {
+        let mut found = false;
+        for (i, a) in a_sorted.iter().enumerate() {
+            if used[i] || key(a) != key(b) {
+                continue;
+            }
+            let ok = corresponds(b, a);
             if ok {
                 used[i] = true;
                 found = true;
@@ -258,6 +265,42 @@ fn check(c: &Case, obs: &mut Obs) -> Verdict {
         }
     }
     ensure!(removed_by_tilde.len() <= 1, "'~' removed different prefixes from different sources: {removed_by_tilde:?}");
+
+    // "never changes what any position resolves to": a lookup at every token position (and just
+    // right of it) lands, before and after, on tokens that correspond to each other — also where
+    // several tokens share the position
+    let mut seen: BTreeSet<(u32, u32)> = BTreeSet::new();
+    for r in &before {
+        if !seen.insert((r.dl, r.dc)) {
+            continue;
+        }
+        for q in [(r.dl, r.dc), (r.dl, r.dc.saturating_add(1))] {
+            let (lb, la) = match guard(|| (before_sm.lookup_token(q.0, q.1).map(|t| t.get_raw_token()), after_sm.lookup_token(q.0, q.1).map(|t| t.get_raw_token()))) {
+                Ok(x) => x,
+                Err(p) => return Verdict::Fail(format!("lookup_token{q:?}: {p}")),
+            };
+            // rows of the tokens the lookups landed on (first token with that raw value in iteration order)
+            let find = |sm: &SourceMap, raw: Option<sourcemap::RawToken>, rows: &[Row]| -> Option<Row> {
+                let raw = raw?;
+                sm.tokens().position(|t| t.get_raw_token() == raw).map(|i| rows[i].clone())
+            };
+            let rb = find(&before_sm, lb, &before);
+            let ra = find(&after_sm, la, &after);
+            match (&rb, &ra) {
+                (Some(b), Some(a)) => {
+                    ensure!(
+                        key(a) == key(b) && corresponds(b, a),
+                        "lookup_token{q:?} resolves to {b:?} before and to {a:?} after the rewrite (names kept={}, contents kept={}, prefixes={prefixes:?})",
+                        c.with_names, c.with_contents
+                    );
+                    let ties = before.iter().filter(|x| (x.dl, x.dc) == (b.dl, b.dc)).count();
+                    obs.class_if(ties > 1, "lookup-on-a-position-shared-by-several-tokens");
+                }
+                _ => return Verdict::Fail(format!("lookup_token{q:?}: before {rb:?}, after {ra:?}")),
+            }
+        }
+    }
+    let _ = &after_hermes;
 
     // lists: nothing unreferenced, no duplicates other than names made equal by stripping
     let new_sources: Vec<String> = after_sm.sources().map(str::to_string).collect();
